@@ -688,7 +688,9 @@ impl<'a> ByteReader for SliceReader<'a> {
     }
 
     fn check_eor(&self, num_bytes: usize) -> Result<(), DeserializationError> {
-        if self.pos + num_bytes > self.source.len() {
+        // `pos` never exceeds the length of the source; comparing with what is left cannot overflow,
+        // whatever length the caller took from its input
+        if num_bytes > self.source.len() - self.pos {
             return Err(DeserializationError::UnexpectedEOF);
         }
         Ok(())
